@@ -3381,7 +3381,17 @@ bool ts_query__step_is_fallible(
     next_step->depth != PATTERN_DONE_MARKER &&
     (next_step->depth > step->depth ||
         (next_step->depth == step->depth && next_step->is_immediate)) &&
-    (!next_step->parent_pattern_guaranteed || step->symbol == WILDCARD_SYMBOL)
+    (
+      !next_step->parent_pattern_guaranteed ||
+      step->symbol == WILDCARD_SYMBOL ||
+      // The analysis does not look at anchors or MISSING tests, and it knows
+      // nothing about the children of an ERROR node: such a step can fail even
+      // when its parent pattern is called guaranteed, so earlier choices have
+      // to stay open.
+      next_step->is_immediate ||
+      next_step->is_missing ||
+      step->symbol == ts_builtin_sym_error
+    )
   );
 }
 
